@@ -66,7 +66,11 @@ class G:
                 e = self.block(nvars, depth - 1, in_loop, cm, returns) if r.chance(5, 10) else []
                 out.append(("i", self.cond(nvars, 2, cm), t, e))
             elif k < 13 and depth > 0:
-                out.append(("w", self.cond(nvars, 2, cm), self.block(nvars, depth - 1, True, cm, returns)))
+                c = self.cond(nvars, 2, cm)
+                # the loop forms share one ownership structure (a body scope that `Verlasse` / `Fahre fort` unwind to);
+                # counting and repeating loops have conditions without heap values
+                kind = r.below(4) if c == ("O",) else r.below(2)
+                out.append(("w", c, self.block(nvars, depth - 1, True, cm, returns), kind))
             elif k < 14 and in_loop and (last or r.chance(3, 10)):
                 out.append(("b",) if r.chance(5, 10) else ("c",))
             elif k < 15 and returns and (last or r.chance(2, 10)):
@@ -167,8 +171,22 @@ def pp_block(b, vis, ind, counter):
                 out.append("%sSonst:" % t)
                 out += pp_block(s[3], vis, ind + 1, counter)
         elif k == "w":
-            out.append("%sSolange %s, mache:" % (t, pp_cond(s[1], vis)))
-            out += pp_block(s[2], vis, ind + 1, counter)
+            kind = s[3] if len(s) > 3 else 0
+            if kind == 0:
+                out.append("%sSolange %s, mache:" % (t, pp_cond(s[1], vis)))
+                out += pp_block(s[2], vis, ind + 1, counter)
+            elif kind == 1:
+                out.append("%sMache:" % t)
+                out += pp_block(s[2], vis, ind + 1, counter)
+                out.append("%sSolange %s." % (t, pp_cond(s[1], vis)))
+            elif kind == 2:
+                counter[0] += 1
+                out.append("%sFür jede Zahl z%d von 1 bis 3, mache:" % (t, counter[0]))
+                out += pp_block(s[2], vis, ind + 1, counter)
+            else:
+                out.append("%sWiederhole:" % t)
+                out += pp_block(s[2], vis, ind + 1, counter)
+                out.append("%s3 Mal." % t)
         elif k == "b":
             out.append("%sVerlasse die Schleife." % t)
         elif k == "c":
@@ -245,10 +263,59 @@ def compile_ir(ddp, src, workdir):
     return open(ll).read(), ""
 
 
-def stage(res, ddp, model, sd, nprog, depth=5):
-    """runs the tie; records violations on res; returns statistics"""
-    rng = Rng(sd)
+def count_kinds(b, hist):
+    for s in b:
+        k = s[0] + (str(s[3]) if s[0] == "w" and len(s) > 3 else "")
+        hist[k] = hist.get(k, 0) + 1
+        if s[0] == "i":
+            count_kinds(s[2], hist)
+            count_kinds(s[3], hist)
+        elif s[0] == "w":
+            count_kinds(s[2], hist)
+
+
+def systematic():
+    """every loop form inside every loop form, with a heap local in the outer body and `Verlasse` / `Fahre fort` of the
+    outer loop before / after the inner loop, behind a condition or not; early returns out of both"""
     progs = []
+    L, V0 = ("L",), ("V", 0)
+    for outer in range(4):
+        for inner in range(4):
+            for jump in ("b", "c", "r"):
+                for where in ("before", "after", "after-if", "inner"):
+                    j = (jump,) if jump != "r" else ("r", ("C", V0, L))
+                    cond_o = ("O",) if outer >= 2 else ("Q", V0, L)
+                    cond_i = ("O",) if inner >= 2 else ("Q", V0, L)
+                    inner_body = [("d", ("C", V0, L)), ("a", 1, V0)]
+                    if where == "inner":
+                        inner_body.append(("i", ("O",), [j], []))
+                    inner_loop = ("w", cond_i, inner_body, inner)
+                    body = [("d", ("C", V0, L))]
+                    if where == "before":
+                        body += [("i", ("Q", V0, L), [j], []), inner_loop]
+                    elif where == "after":
+                        body += [inner_loop, j]
+                    elif where == "after-if":
+                        body += [inner_loop, ("i", ("O",), [j], [("a", 0, L)])]
+                    else:
+                        body += [inner_loop, ("x", ("F", 0, V0))]
+                    fbody = [("d", L), ("w", cond_o, body, outer), ("r", ("C", V0, ("V", 1)))]
+                    progs.append([{"returns": True, "body": fbody}])
+    return progs
+
+
+def driver(fs, i):
+    """a program that calls function i once (the property's own monitor, the heap ledger, judges the run)"""
+    call = 'fn%d "x"' % i
+    return pp_program(fs) + ("Der Text ergebnis ist %s.\n" % call if fs[i]["returns"] else call + ".\n")
+
+
+def stage(res, ddp, model, sd, nprog, depth=5, run_and_judge=None):
+    """runs the tie; records violations on res; returns statistics.
+    run_and_judge(program text) -> None | description: runs the program under the heap ledger (the monitor of the
+    property itself); used to turn a disagreement between model and code generator into a failing input"""
+    rng = Rng(sd)
+    progs = systematic()
     for _ in range(nprog):
         nf = 1 + rng.below(3)
         g = G(rng, nf)
@@ -264,7 +331,7 @@ def stage(res, ddp, model, sd, nprog, depth=5):
             irs = list(ex.map(lambda ip: compile_ir(ddp, pp_program(ip[1]), os.path.join(work, "p%d" % ip[0])), enumerate(progs)))
     finally:
         shutil.rmtree(work, ignore_errors=True)
-    st = {"programs": nprog, "functions": 0, "agree": 0, "rejected-by-kddp": 0, "paths_run": 0, "stmt_kinds": {}}
+    st = {"programs": len(progs), "systematic_programs": len(systematic()), "functions": 0, "agree": 0, "rejected-by-kddp": 0, "paths_run": 0, "stmt_kinds": {}}
     ai = 0
     for fs, (ll, err) in zip(progs, irs):
         src = pp_program(fs)
@@ -281,8 +348,7 @@ def stage(res, ddp, model, sd, nprog, depth=5):
             res.evaluations += 1
             st["functions"] += 1
             kv = dict(x.split("=") for x in a.split() if "=" in x)
-            for s in f["body"]:
-                st["stmt_kinds"][s[0]] = st["stmt_kinds"].get(s[0], 0) + 1
+            count_kinds(f["body"], st["stmt_kinds"])
             if kv.get("wf") != "1":
                 res.violation("own-model:ill-scoped:%d" % (hash(a) % 10 ** 8), "the generator produced a body the model calls ill-scoped", {"program": src, "model": a}, has_input=False)
                 continue
@@ -296,11 +362,22 @@ def stage(res, ddp, model, sd, nprog, depth=5):
                               "the ownership model itself releases a value twice, or not at all, on some path of this body (theorem Props/C05 fn_balanced would be false)",
                               {"program": src, "function": "fn%d" % i, "model": a, "body": " ".join(enc_block(f["body"]))}, has_input=True)
             if got != want:
-                res.violation("own-model:calls:%s" % "/".join(k for k in KEYS if not got or got[k] != want[k]),
-                              "the code generator emits other ownership-relevant calls for this function than the model of its bookkeeping "
-                              "(DDP.Own.compileFn): model %s, LLVM IR %s" % (want, got),
-                              {"program": src, "function": "fn%d" % i, "model": want, "implementation": got, "body": " ".join(enc_block(f["body"])),
-                               "correspondence": "callCounts (DDP.Own.compileFn body) vs calls in the IR of kddp -O 0"}, has_input=True)
+                st["disagree"] = st.get("disagree", 0) + 1
+                why = None
+                if run_and_judge is not None and st["disagree"] <= 6:
+                    why = run_and_judge(driver(fs, i))
+                fp = "own-model:calls:%s" % "/".join(k for k in KEYS if not got or got[k] != want[k])
+                if why:
+                    res.violation(fp + ":heap", "a function for which the code generator emits other releases than the model of its bookkeeping "
+                                  "breaks the heap contract when it runs: %s (model %s, LLVM IR %s)" % (why, want, got),
+                                  {"program": driver(fs, i), "function": "fn%d" % i, "model": want, "implementation": got,
+                                   "body": " ".join(enc_block(f["body"])), "monitor": "heap ledger (ddp_reallocate contract), kddp -O 0"}, has_input=True)
+                else:
+                    res.violation(fp, "the code generator emits other ownership-relevant calls for this function than the model of its bookkeeping "
+                                  "(DDP.Own.compileFn): model %s, LLVM IR %s; the theorem Props/C05 fn_balanced no longer speaks about this code generator" % (want, got),
+                                  {"program": src, "function": "fn%d" % i, "model": want, "implementation": got, "body": " ".join(enc_block(f["body"])),
+                                   "correspondence": "callCounts (DDP.Own.compileFn body) vs calls in the IR of kddp -O 0",
+                                   "theorem": "DDP.Own.fn_balanced (tie broken)"}, has_input=False)
             else:
                 st["agree"] += 1
                 res.nontrivial("own:%s" % "-".join(str(want[k]) for k in KEYS))
